@@ -163,6 +163,20 @@ Lists   == {<<>>, <<Empty>>, <<Alice>>, <<Alice, Bob>>, <<Bob>>, <<Empty, Alice>
               \cup {<<n>> : n \in DecoAlice}
 Wanteds == {NoneP, Empty, Alice, Bob} \cup DecoAlice
 
+\* pattern lists of an allowed-signers line (one white-space free token)
+LineLists == {<<Alice>>, <<Bob>>, <<Alice, Bob>>}
+               \cup {<<[b |-> "alice", d |-> x]>> : x \in Decos \ {"lspace", "tspace"}}
+\* wildcard semantics of one pattern against the wanted identity (the wanted
+\* identity itself is never a pattern): "ali*", "alic?", "alice,bob" = two patterns
+StartsAli(w) == w.b = "alice" /\ w.d \notin {"upper", "lspace"}
+Len5Alic(w)  == w = Alice \/ (w.b = "alice" /\ w.d = "qmark")
+PatMatch(p, w) == CASE p.d = "star"  -> StartsAli(w)
+                    [] p.d = "qmark" -> Len5Alic(w)
+                    [] p.d = "comma" -> w \in {Alice, Bob}
+                    [] OTHER         -> w = p
+LineMatch(l, w) == \E i \in DOMAIN l : PatMatch(l[i], w)
+LineEntry(k) == k.entry \in {"sshsig_key", "sshsig_caline"}
+
 \* time points: 0 = 0, 1 = a-1, 2 = a, 3 = b-1, 4 = b, 5 = 2^64-1
 Bounds == {0, 2, 4, 5}
 
@@ -179,6 +193,12 @@ IdentCases ==
     [entry : {"hostalias"}, ctype : {"host"}, want : {"same"},
      list : Lists, wanted : Wanteds \ {NoneP, Empty}, after : {0}, before : {5}, now : {3}]
       \cup
+    \* (B') SSHSIG: the wanted identity against the principals *pattern list*
+    \*      of an allowed-signers line (plain key line / cert-authority line
+    \*      with a certificate valid for everybody); `list' is the pattern list
+    [entry : {"sshsig_key", "sshsig_caline"}, ctype : {"user"}, want : {"same"},
+     list : LineLists, wanted : Wanteds \ {NoneP}, after : {0}, before : {5}, now : {3}]
+      \cup
     \* (C) every validity window (including 0 and inverted ones) x every now
     [entry : {"validate", "sshsig"}, ctype : {"user"}, want : {"same"},
      list : {<<>>, <<Alice>>}, wanted : {Alice}, after : Bounds, before : Bounds,
@@ -189,7 +209,8 @@ Range(s) == {s[i] : i \in DOMAIN s}
 IdentRule(k) ==
     /\ k.want # "other"
     /\ k.after <= k.now /\ k.now < k.before
-    /\ (k.wanted = NoneP \/ k.list = <<>> \/ k.wanted \in Range(k.list))
+    /\ IF LineEntry(k) THEN LineMatch(k.list, k.wanted)
+       ELSE (k.wanted = NoneP \/ k.list = <<>> \/ k.wanted \in Range(k.list))
 
 Strip(n) == IF n.d \in {"lspace", "tspace"} THEN [n EXCEPT !.d = "plain"] ELSE n
 Lower(n) == IF n.d = "upper" THEN [n EXCEPT !.d = "plain"] ELSE n
@@ -208,8 +229,9 @@ IdentCheck(s, k) ==
       [] s = "vprinc"  ->
             LET dontcare == IF Variant = "empty_is_none"
                             THEN k.wanted \in {NoneP, Empty} ELSE k.wanted = NoneP
-            IN dontcare \/ k.list = <<>>
-               \/ Norm(k.wanted) \in {Norm(n) : n \in Range(k.list)}
+            IN IF LineEntry(k) THEN (dontcare \/ LineMatch(k.list, k.wanted))
+               ELSE dontcare \/ k.list = <<>>
+                    \/ Norm(k.wanted) \in {Norm(n) : n \in Range(k.list)}
 
 -----------------------------------------------------------------------------
 (* Plain signatures                                                        *)
@@ -224,7 +246,9 @@ VerCases ==
             name : {"same", "othersup", "unsup"},      \* algorithm name in the blob
             key  : {"same", "othersame", "othertype"}, \* verifying key
             data : {"same", "diff"},
-            sig  : {"same", "flip", "trunc", "ext"}] : \* signature bits
+            sig  : {"same", "flip", "trunc", "ext",   \* signature bits
+                    "reenc"}] :  \* "reenc": a length-changing re-encoding of the same
+                                 \* value (leading zero added / stripped, padded, ...)
        k.name = "othersup" => Cardinality(Supported(KeyTypeOf(k.alg))) > 1}
 
 VerifyRule(k) == k.name = "same" /\ k.key = "same" /\ k.data = "same" /\ k.sig = "same"
@@ -236,7 +260,9 @@ NameAccepted(k) ==
            [] k.name = "unsup"    -> FALSE
            [] OTHER               -> TRUE
 \* abstract crypto: the tuple is exactly the signed one
-VerCrypto(k) == /\ k.key = "same" /\ k.data = "same" /\ k.sig = "same"
+\* only the canonical blob produced by sign() verifies
+VerCrypto(k) == /\ k.key = "same" /\ k.data = "same"
+                /\ (k.sig = "same" \/ (Variant = "normalise_sig" /\ k.sig = "reenc"))
                 /\ (IF Variant = "ignore_algname" THEN TRUE ELSE k.name = "same")
 
 VerStages == <<"alg", "crypto">>
